@@ -868,14 +868,14 @@ func c01cyclic(c *engine.Ctx, only string) {
 			os.Remove(bin)
 		}
 	}()
-	const setup = `(def cy [0]) (aset cy 0 cy) (def hc (hash a: 1)) (hset hc a: hc) (def ly (list 1 cy)) (def ca [0]) (aset ca 0 (list (quote and) ca)) (def cs [1 2 3]) (aset cs 1 (arrayidx cs [1])) (def hs (hash k: 1)) (hset hs k: (hashidx hs k:)) `
+	const setup = `(def cy [0]) (aset cy 0 cy) (def hc (hash a: 1)) (hset hc a: hc) (def ly (list 1 cy)) (def ca [0]) (aset ca 0 (list (quote and) ca)) (def cs [1 2 3]) (aset cs 1 (arrayidx cs [1])) (def hs (hash k: 1)) (hset hs k: (hashidx hs k:)) (def ta [1 2 3]) (def ta (append ta 4)) (aset ta 1 ta) (def tb (slice [1 2 3] 0 2)) (aset tb 0 tb) (def tc (concat [1] [2])) (aset tc 1 (list tc)) `
 	seen := map[string]bool{}
 	for _, n := range names {
 		if seen[n] || n == "" || withheld[n] || c01mayWait(n) || n == "sys" || n == "stop" || strings.ContainsAny(n, "()[]{}\"' `") {
 			continue
 		}
 		seen[n] = true
-		for fi, form := range []string{"(%s cy)", "(%s cy cy)", "(%s hc)", "(%s hc hc)", "(%s cy 0)", "(%s 0 cy)", "(%s hc a:)", "(%s ly)", "(def zz (%s cy))", "(str (%s hc))", "(%s ca)", "(%s cs)", "(%s hs)", "(%s ca ca)"} {
+		for fi, form := range []string{"(%s cy)", "(%s cy cy)", "(%s hc)", "(%s hc hc)", "(%s cy 0)", "(%s 0 cy)", "(%s hc a:)", "(%s ly)", "(def zz (%s cy))", "(str (%s hc))", "(%s ca)", "(%s cs)", "(%s hs)", "(%s ca ca)", "(%s ta)", "(%s tb tc)"} {
 			w := fmt.Sprintf("Y|%s|%d", n, fi)
 			if !(only == "" && c.Mine() || only == w) {
 				continue
@@ -988,7 +988,7 @@ func init() {
 		Level: "exploration",
 		Rule: "(T) every string of <=3 (thorough 4) tokens over a 60-token alphabet, joined with and without blanks, x 10 wrappers (bare, macexpand, quote, syntax-quote, eval, infix block, function body, call head, array, call argument) through EvalString, LoadString+Run, the REPL line path (parse, continuation, infix wrap, EvalExpressions, stack-trace/print) and the parser alone; " +
 			"(K) every bound name, macro and special form, and 12 user-defined functions/macros/closures/struct values (lazy, variadic, typed, tail-recursive signatures) x every argument vector of length 0..2 (thorough 3) over 24 value/form kinds, and 41 kinds of value in call-head position with the same vectors; (F) every top-level form of the 111 corpus scripts, after the forms before it, under every prefix, single-token deletion, duplication, neighbour swap and replacement by 8 (thorough 18) tokens; " +
-			"(N) 31 nesting families at depths 1..600 (thorough 1500; some parsers are quadratic in the nesting depth), closed, unclosed and over-closed, through eval, REPL, parser, compiler and printer; (P) 16 statements x 8 self-calling tails x 5 callers as function bodies, each followed by ordinary evaluations on the same interpreter; (S) struct declarations with 9 x 9 ASCII / 2-, 3-, 4-byte texts in field attributes, instances re-bound and printed; (Y) every bound function x 14 call shapes on arrays, hashes and selectors that contain themselves (directly, through a quoted special form, through an index selector), each in its own process; (C) hand list + alphabet through zygo -c, REPL on stdin and script file. Oracle: the call returns a value or an error (no escaping panic, no process death, no Go-nil result), and returns: a call still running after 90 s although the 100000-step VM budget is not used up ends the worker (watchdog) and is confirmed by three solitary replays",
+			"(N) 31 nesting families at depths 1..600 (thorough 1500; some parsers are quadratic in the nesting depth), closed, unclosed and over-closed, through eval, REPL, parser, compiler and printer; (P) 16 statements x 8 self-calling tails x 5 callers as function bodies, each followed by ordinary evaluations on the same interpreter; (S) struct declarations with 9 x 9 ASCII / 2-, 3-, 4-byte texts in field attributes, instances re-bound and printed; (Y) every bound function x 16 call shapes on arrays (literal, and made by append / slice / concat), hashes and selectors that contain themselves (directly, through a quoted special form, through an index selector), each in its own process; (C) hand list + alphabet through zygo -c, REPL on stdin and script file. Oracle: the call returns a value or an error (no escaping panic, no process death, no Go-nil result), and returns: a call still running after 90 s although the 100000-step VM budget is not used up ends the worker (watchdog) and is confirmed by three solitary replays",
 		Assumptions:   []string{"texts that name channel / goroutine primitives may wait for ever and are counted, not judged, when they do", "functions acting on the outside world (" + strings.Join(c01withheld, ", ") + ", sys) are replaced by failing stubs", "allocation sizes between 2^31 and 2^62 are not in the value menu (out-of-memory is not explored)"},
 		QuickDeadline: 170 * time.Second,
 		Run:           func(c *engine.Ctx) { c01all(c, "", -1) },
